@@ -9,19 +9,20 @@ import (
 // Run executes the C18 monitors.
 func Run(c *fw.Ctx) {
 	child := os.Getenv(childEnv) != ""
-	c.Cases("json.scalar-const", c.N(77, 7*11*4), constScalarCase)
+	c.Cases("json.scalar-const", c.N(154, 7*14*8), constScalarCase)
 	if child {
 		return
 	}
-	c.Cases("json.scalar", c.N(2400, 60000), scalarCase)
-	c.Cases("json.vector", c.N(4000, 120000), func(cs *fw.Case) { vectorCase(cs, "json.vector", false) })
-	c.Cases("json.matrix", c.N(4000, 120000), func(cs *fw.Case) { matrixCase(cs, "json.matrix", false) })
-	c.Cases("table.vector", c.N(3000, 80000), func(cs *fw.Case) { vectorCase(cs, "table.vector", true) })
-	c.Cases("table.matrix", c.N(3000, 80000), func(cs *fw.Case) { matrixCase(cs, "table.matrix", true) })
-	c.Cases("config.dist", c.N(2100, 60000), configCase)
-	c.Cases("malformed.json", c.N(12600, 400000), malformedJSONCase)
-	c.Cases("malformed.table", c.N(7200, 200000), malformedTableCase)
+	c.Cases("json.scalar", c.N(7200, 72000), scalarCase)
+	c.Cases("json.vector", c.N(12096, 120960), func(cs *fw.Case) { vectorCase(cs, "json.vector", false) })
+	c.Cases("json.matrix", c.N(12960, 129600), func(cs *fw.Case) { matrixCase(cs, "json.matrix", false) })
+	c.Cases("table.vector", c.N(9216, 92160), func(cs *fw.Case) { vectorCase(cs, "table.vector", true) })
+	c.Cases("table.matrix", c.N(10368, 103680), func(cs *fw.Case) { matrixCase(cs, "table.matrix", true) })
+	c.Cases("config.dist", c.N(8400, 84000), configCase)
+	c.Cases("malformed.json", c.N(50400, 504000), malformedJSONCase)
+	c.Cases("malformed.table", c.N(30240, 302400), malformedTableCase)
+	c.Cases("malformed.config", c.N(17472, 174720), malformedConfigCase)
 	if c.Thorough() {
-		c.Cases("malformed.bytes", 300000, randomBytesCase)
+		c.Cases("malformed.bytes", 900000, randomBytesCase)
 	}
 }
